@@ -38,6 +38,7 @@ def optsOf (j : Json) : Opts :=
     normalizeAmp := fieldBool j "normalize_amp" true
     fixCommonMistakes := fieldBool j "fix_common_mistakes" true
     quoted := fieldBool j "quoted" false
+    lowercase := fieldBool j "lowercase" false
     queryItemFilter := match field j "query_item_filter" with
       | .str "lang" => .lang
       | _ => .none }
